@@ -152,6 +152,29 @@ theorem ExitsKeep.run {F : Option FileSt × Globals} (p : DP) (h : ExitsKeep F p
     · exact ih _ (h.2 _) _ _ hr
     · split at hr <;> (cases hr; exact h.1 _)
 
+/-- every early exit of the program ends in a state satisfying `R` -/
+def ExitsSat (R : DecSt → Prop) : DP → Prop
+  | .done _ => True
+  | .exit e => R e.st
+  | .readBuf _ onErr cont => (∀ r, R (onErr r).st) ∧ ∀ bs, ExitsSat R (cont bs)
+
+theorem ExitsSat.run {R : DecSt → Prop} (p : DP) (h : ExitsSat R p) (limit n : Nat) (s : SpecSt) (e : ErrExit)
+    (hr : (runSpecD limit p n s).1 = .inl e) : R e.st := by
+  induction p generalizing n s with
+  | done x => simp [runSpecD] at hr
+  | exit e' => simp only [runSpecD] at hr; cases hr; exact h
+  | readBuf k onErr cont ih =>
+    simp only [runSpecD] at hr
+    split at hr
+    · exact ih _ (h.2 _) _ _ hr
+    · split at hr <;> (cases hr; exact h.1 _)
+
+theorem trivialSat (p : DP) : ExitsSat (fun _ => True) p := by
+  induction p with
+  | done x => trivial
+  | exit e => trivial
+  | readBuf k onErr cont ih => exact ⟨fun _ => trivial, ih⟩
+
 theorem rd_keep (F : Option FileSt × Globals) (st : DecSt) (k : Nat) (c : Bytes → DecSt → DP) (hst : st.fileOf = F)
     (hc : ∀ bs st', st'.fileOf = F → ExitsKeep F (c bs st')) : ExitsKeep F (rd st k c) :=
   ⟨fun _ => hst, fun bs => hc bs _ hst⟩
@@ -267,8 +290,10 @@ theorem oneRecord_keep (P : Profile) (limit : Nat) (st : DecSt) : ExitsKeep st.f
     File exactly as it was before that record. -/
 theorem cut_record (P : Profile) (limit fuel : Nat) (cont : DecSt → DP) (st : DecSt) (it : Item) (hok : ItemOK st it)
     (n : Nat) (hn : st.n = n) (hl : n + (serializeItem it).length ≤ limit) (s : SpecSt) (j : Nat)
-    (hj : j < (serializeItem it).length) (hs : s.rest = (serializeItem it).take j) :
-    ∃ e, (runSpecD limit (decodeFileData P limit (fuel + 1) st cont) n s).1 = .inl e ∧ e.st.fileOf = st.fileOf := by
+    (hj : j < (serializeItem it).length) (hs : s.rest = (serializeItem it).take j)
+    (R : DecSt → DecSt → Prop := fun _ _ => True)
+    (hR : ∀ limit st, ExitsSat (R st) (oneRecord P limit st) := by intros; exact trivialSat _) :
+    ∃ e, (runSpecD limit (decodeFileData P limit (fuel + 1) st cont) n s).1 = .inl e ∧ e.st.fileOf = st.fileOf ∧ R st e.st := by
   rw [loop_step, runSpecD_bind]
   have hkeep := oneRecord_keep P limit st
   have hcons := runSpecD_conserve limit (oneRecord P limit st) n s
@@ -277,8 +302,9 @@ theorem cut_record (P : Profile) (limit fuel : Nat) (cont : DecSt → DP) (st : 
     obtain ⟨n', s'⟩ := rest
     cases o with
     | inl e =>
-      refine ⟨e, rfl, ?_⟩
-      exact hkeep.run _ limit n s e (by rw [hr])
+      refine ⟨e, rfl, ?_, ?_⟩
+      · exact hkeep.run _ limit n s e (by rw [hr])
+      · exact (hR limit st).run _ limit n s e (by rw [hr])
     | inr x =>
       exfalso
       have hext := runSpecD_extend limit (oneRecord P limit st) n s ((serializeItem it).drop j) x (by rw [hr])
@@ -334,14 +360,16 @@ theorem cut_items (P : Profile) (limit fuel : Nat) (cont : DecSt → DP) (done :
     (hfit : ItemsFit P st (done ++ it :: more)) (hj : j < (serializeItem it).length)
     (hs : s.rest = serialize done ++ (serializeItem it).take j)
     (hl : n + (serialize done).length + (serializeItem it).length ≤ limit) (hn : st.n = n)
-    (st1 : DecSt) (h1 : stepItems P st done = .ok st1) :
+    (st1 : DecSt) (h1 : stepItems P st done = .ok st1)
+    (R : DecSt → DecSt → Prop := fun _ _ => True)
+    (hR : ∀ limit st, ExitsSat (R st) (oneRecord P limit st) := by intros; exact trivialSat _) :
     ∃ e, (runSpecD limit (decodeFileData P limit (fuel + 1 + done.length) st cont) n s).1 = .inl e ∧
-      e.st.fileOf = st1.fileOf := by
+      e.st.fileOf = st1.fileOf ∧ R st1 e.st := by
   obtain ⟨hfd, hok⟩ := hfit.split P st done it more
   have hrun := run_items P limit cont done (fuel + 1) st n s ((serializeItem it).take j) hfd hs (by omega) hn
   rw [h1] at hrun
   obtain ⟨hrun, hn1⟩ := hrun
   rw [hrun]
-  exact cut_record P limit fuel cont st1 it (hok st1 h1) _ hn1 (by omega) _ j hj rfl
+  exact cut_record P limit fuel cont st1 it (hok st1 h1) _ hn1 (by omega) _ j hj rfl R hR
 
 end Fit
